@@ -332,6 +332,7 @@ class EvalArm(Obligation):
                 # does the native outcome violate the reference concretely?
                 bad = False
                 if out[0] in ('panic', 'limit'): bad = True
+                elif getattr(self, 'witness_deviates', None): bad = True      # the witness was chosen because it departs natively from the reference operation
                 elif refcase[0] == 'ok':
                     if out[0] == 'err': bad = True
                     else:
@@ -348,6 +349,49 @@ class EvalArm(Obligation):
                         if is_sym(v_): blk.append(v_ != m.eval(v_, model_completion=True))
                 if not blk: return None
                 blocked.append(z3.Or(blk))
+            return None
+
+        pooled = []
+
+        def pool_confirm(out, refcase, what, extra_conds):
+            """assign boundary values to the symbolic leaves and run the usual confirmation (at most once per obligation)"""
+            import itertools
+            if pooled: return None
+            pooled.append(1)
+            vars_ = []
+            for lf in leaves:
+                v_ = getattr(lf, 'k', lf.var)
+                for x in ([v_] if not isinstance(lf.var, tuple) else [lf.var[1], lf.var[2]]):
+                    if is_sym(x): vars_.append(x)
+            if not vars_ or len(vars_) > 4: return None
+            pools = []
+            for v_ in vars_:
+                if z3.is_fp(v_): pools.append([fp_const(x) for x in F64_POOL])
+                elif z3.is_bv(v_): pools.append([z3.BitVecVal(x, v_.size()) for x in I64_POOL])
+                elif z3.is_int(v_): pools.append([z3.IntVal(x) for x in I64_POOL])
+                else: return None
+            n = 0; t_end = time.time() + 120
+            for combo in itertools.product(*pools):
+                n += 1
+                if n > 3000 or time.time() > t_end: break
+                s2 = z3.Solver()
+                for v_, x in zip(vars_, combo): s2.add(v_ == x)
+                if s2.check() != z3.sat: continue
+                m = s2.model(); cz = Concretizer(m, runner)
+                try:
+                    if not all(cz.bool(c) for c in e.path_condition() + [c for c in extra_conds if is_sym(c)]): continue
+                    sx, stt, payload, us = native_of(cz)
+                    pred = predicted_of(out, cz)
+                except Exception:
+                    continue
+                nat = stt if stt in ('PANIC', 'ERR', 'TIMEOUT') else stt + ' ' + payload
+                if pred != nat: continue
+                pv = refcase[1](out[1])
+                try:
+                    bad = not cz.bool(pv) if not isinstance(pv, bool) else not pv
+                except Exception:
+                    continue
+                if bad: return dict(sexpr=sx, native=nat, profile=profile, what=what, us=us)
             return None
 
         def on_path(p):
@@ -461,6 +505,12 @@ class EvalArm(Obligation):
                         if q is True: r = z3.sat
                         if r == z3.unsat: res['discharged'] += 1; continue
                         if r == z3.unknown:
+                            # the solver gave up: boundary operand values on the compiled code may still show a violation (never a pass)
+                            pc_ = pool_confirm(out, oc_, 'wrong value (expected %s)' % str(oc_[2])[:80], extra + ([q] if q is not True else []))
+                            if isinstance(pc_, dict):
+                                viol_here = True
+                                pc_['key'] = '%s|%s|%s|%s|' % (self.ev, self.kind, 'wrong value', profile); pc_['obligation'] = self.name
+                                res['confirmed'].append(pc_); continue
                             res['inconclusive'].append('%s: solver unknown on value query' % self.name); continue
                         what = 'wrong value (expected %s)' % str(oc_[2])[:80]; extra = extra + ([q] if q is not True else [])
                     else:
